@@ -9,8 +9,10 @@ from typing import Any, Iterator
 
 import numpy as np
 
+from hypothesis import strategies as st
+
 from vf import gen_dc, oracle_dc
-from vf.core import Ctx, Violation, canon, require
+from vf.core import Ctx, Violation, canon, require, sut
 
 META = {
     "rule": "one case = one program (equations, controller) with parameter "
@@ -405,7 +407,86 @@ def check_fom(ctx: Ctx, case: dict) -> None:
         "fom_has_1e100" if big else "fom_regular"])
 
 
-SUBS = {"linear": check_program, "bundled": check_program,
+@st.composite
+def multi_cases(draw: Any) -> dict:
+    """multi_run_ode: several test and training starting states of a damped
+    linear system, with *different* step counts / time limits per group."""
+    dim = draw(st.integers(2, 3))
+
+    def states(k: int) -> list[list[float]]:
+        return [[draw(st.integers(-40, 40)) / 8.0 for _ in range(dim)]
+                for _ in range(k)]
+
+    return {"dim": dim, "decay": draw(st.integers(1, 12)) / 4.0,
+            "gain": draw(st.integers(0, 8)) / 4.0,
+            "test": states(draw(st.integers(0, 3))),
+            "train": states(draw(st.integers(0, 3))),
+            "test_steps": draw(st.integers(5, 40)),
+            "train_steps": draw(st.integers(5, 40)),
+            "test_time": draw(st.sampled_from([0.5, 1.0, 2.5])),
+            "train_time": draw(st.sampled_from([0.25, 1.0, 3.0])),
+            "use_dims": draw(st.sampled_from([-1, 1, 2])),
+            "gamma": draw(st.sampled_from([0.0, 0.1, 1.5])),
+            "collectors": draw(st.integers(1, 2))}
+
+
+def check_multi(ctx: Ctx, case: dict) -> None:
+    """Every simulation started through multi_run_ode has the number of rows
+    and the time limit requested for its group (test / training) and equals
+    the corresponding single run_ode call; J and T are those of its result."""
+    from moptipyapps.dynamic_control.ode import (
+        j_from_ode,
+        multi_run_ode,
+        run_ode,
+        t_from_ode,
+    )
+    decay, gain, dim = case["decay"], case["gain"], case["dim"]
+
+    def eq(s: Any, _t: float, c: Any, out: Any) -> None:
+        for i in range(dim):
+            out[i] = -decay * s[i] + c[0]
+
+    def ctrl(s: Any, _t: float, p: Any, out: Any) -> None:
+        out[0] = -p[0] * s[0]
+
+    params = np.array([gain])
+    got: list[list[tuple]] = [[] for _ in range(case["collectors"])]
+    cols = [(lambda i, ode, j, t, _g=g: _g.append((i, ode, j, t)))
+            for g in got]
+    tests = [np.array(v, dtype=float) for v in case["test"]]
+    trains = [np.array(v, dtype=float) for v in case["train"]]
+    sut("multi_run_ode", multi_run_ode, tests, trains,
+        cols if len(cols) > 1 else cols[0], eq, ctrl, params, 1,
+        case["test_steps"], case["test_time"], case["train_steps"],
+        case["train_time"], case["use_dims"], case["gamma"])
+    want = [(sp, case["test_steps"], case["test_time"]) for sp in tests] + \
+        [(sp, case["train_steps"], case["train_time"]) for sp in trains]
+    for g in got:
+        require(len(g) == len(want), lambda: f"{len(g)} results for "
+                f"{len(want)} starting states")
+        for k, ((i, ode, j, t), (sp, steps, tmax)) in enumerate(zip(g, want)):
+            kind = "test" if k < len(tests) else "training"
+            require(i == k, f"result {k} carries index {i}")
+            require(ode.shape[0] in (steps, 1), lambda: f"{kind} case {k}: "
+                    f"requested {steps} rows, got {ode.shape[0]}")
+            require(float(ode[-1, -1]) <= tmax, lambda: f"{kind} case {k}: "
+                    f"time {ode[-1, -1]} beyond the limit {tmax}")
+            ref = run_ode(sp, eq, ctrl, params, 1, steps, tmax)
+            require(np.array_equal(ode, ref), f"{kind} case {k} differs from "
+                    "the single run_ode call with the same arguments")
+            require(j == j_from_ode(ode, dim, case["use_dims"],
+                                    case["gamma"]) and t == t_from_ode(ode),
+                    f"{kind} case {k}: J/T handed to the collector are not "
+                    "those of the result")
+    ctx.rec.case(case, nontrivial=(
+        bool(tests) and bool(trains)
+        and case["test_steps"] != case["train_steps"]),
+        labels=["multi", f"multi_collectors={case['collectors']}",
+                "multi_steps_differ" if case["test_steps"]
+                != case["train_steps"] else "multi_steps_equal"])
+
+
+SUBS = {"multi": check_multi, "linear": check_program, "bundled": check_program,
         "adversarial": check_program, "nan_at_start": check_nan_at_start,
         "fom": check_fom}
 
@@ -414,6 +495,8 @@ def run(ctx: Ctx) -> None:
     catalog = gen_dc.controller_catalog()
     ctx.each("nan_at_start", gen_dc.nan_at_start_programs()
              if ctx.shard == 0 else [], check_nan_at_start)
+    ctx.given("multi", multi_cases(), check_multi, quick=60,
+              thorough=16 * 300)
     ctx.given("fom", gen_dc.ode_arrays(), check_fom,
               quick=300, thorough=16 * 1500)
     ctx.given("linear", gen_dc.linear_programs(), check_program,
